@@ -38,7 +38,9 @@ RULE = ('seeded generator over the 9 methods of the test interface c14svc (strin
         'calls of different methods through one ThriftSerializerSink over a router with one connection per call (all written before '
         'the first reply; replies fifo/lifo/shuffled/nested), each reply checked against what the Processor produced for that call; '
         'sequences over TWO unrelated inherited services (SvcA extends BaseA, SvcB extends BaseB in harness/ifaces/c14inh) that declare '
-        'same-named methods with different signatures, used alternately in one process. '
+        'same-named methods with different signatures, used alternately in one process; a service whose parameter field ids are NOT in '
+        'declaration order (descending, shuffled, with gaps: harness/ifaces/c14ord) called positionally, by keyword and mixed - the '
+        'Processor must receive each value under the parameter name the caller bound it to. '
         'non-trivial = the call reached the wire and a reply was read; distinct by canonical JSON of (case, observation)')
 TRUSTED = ['Thrift library 0.24 (TBinaryProtocol pure Python, fastbinary, TApplicationException) and the generated-style '
            'Processor/Client of harness/ifaces/c14svc (written by hand in the compiler\'s layout) as the server-side oracle',
@@ -78,6 +80,7 @@ IFACES = {               # name -> (package, service module, Coq table name)
     'c14svc': ('harness.ifaces.c14svc', 'C14Svc', 'c14svc'),
     'inhA': ('harness.ifaces.c14inh', 'SvcA', 'c14inhA'),      # SvcA extends BaseA
     'inhB': ('harness.ifaces.c14inh', 'SvcB', 'c14inhB'),      # SvcB extends BaseB: same method names, other signatures
+    'ord': ('harness.ifaces.c14ord', 'OrdSvc', 'c14ord'),      # parameter field ids not in declaration order
 }
 
 
@@ -116,6 +119,17 @@ def _find(name):
 
 def _args_spec(method):
   return _find(method + '_args').thrift_spec
+
+
+def _params(method):
+  """args spec entries in DECLARATION order: the order of the service method's parameters (= of the generated
+  <method>_args constructor and of the handler call), which is what a positional call binds to.  thrift_spec
+  (and the wire) are in field-id order, which is something else when the IDL numbers parameters out of order."""
+  import inspect
+  by = {e[2]: e for e in _args_spec(method) if e is not None}
+  names = [n for n in inspect.signature(getattr(_iface().Iface, method)).parameters if n != 'self']
+  assert sorted(names) == sorted(by), (method, names, sorted(by))
+  return [by[n] for n in names]
 
 
 def _result_cls(method):
@@ -313,11 +327,11 @@ def gen_chunkings(r, k, force=None):
   return out
 
 
-def gen_rpc(r, nchunk, method=None, behaviour=None, size=None, iface=None):
+def gen_rpc(r, nchunk, method=None, behaviour=None, size=None, iface=None, argmode=None):
   """size: None (random mix), 'small' (no planted defects, short values), 'big' (long strings / blobs)."""
   _use(iface)
   method = method or r.choice(_methods())
-  aspec = [e for e in _args_spec(method) if e is not None]
+  aspec = _params(method)              # declaration order: positional arguments bind to these names
   flags = {}
   u = r.random()
   if size == 'big':
@@ -334,8 +348,11 @@ def gen_rpc(r, nchunk, method=None, behaviour=None, size=None, iface=None):
   for e in aspec:
     if r.random() < 0.93:
       vals[e[2]] = gen_value(r, e[1], e[3], 0, flags)
+      if iface == 'ord' and e[1] == T_STRING and e[3] != 'BINARY' and r.random() < 0.8 and '\ud800' not in vals[e[2]]:
+        vals[e[2]] = e[2] + '=' + vals[e[2]]          # make same-typed parameters tell-apart values
   # positional prefix + keywords for the rest
-  npos = r.choice([len(aspec), len(aspec), 0, r.randrange(len(aspec) + 1)])
+  npos = r.choice([len(aspec), len(aspec), 0, r.randrange(len(aspec) + 1)]) if argmode is None else \
+      {'pos': len(aspec), 'kw': 0, 'mixed': max(1, len(aspec) // 2)}[argmode]
   args = []
   kwargs = {}
   for i, e in enumerate(aspec):
@@ -501,6 +518,27 @@ def gen_cases(tier, seed):
         out.append(gen_overlap(r, methods=[m1, m2], order=r.choice(['fifo', 'lifo'])))
   for j in range(120 if tier == 'quick' else 1500):
     out.append(gen_overlap(C.case_rng(seed, PID + 'overlap', j)))
+  # a service whose parameter field ids are not in declaration order: positional, keyword and mixed calls
+  _use('ord')
+  k = 0
+  for m in _methods():
+    for mode in ['pos', 'kw', 'mixed']:
+      for b in ['ret', 'declared']:
+        for rep in range(1 if tier == 'quick' else 4):
+          r = C.case_rng(seed, PID + 'ordgrid', k)
+          k += 1
+          c = gen_rpc(r, 2, method=m, behaviour=b, size='small', iface='ord', argmode=mode)
+          c['mangle'] = None
+          out.append(c)
+  for j in range(150 if tier == 'quick' else 1800):
+    r = C.case_rng(seed, PID + 'ord', j)
+    out.append(gen_rpc(r, 2, iface='ord', argmode=r.choice([None, 'pos', 'pos', 'mixed'])))
+  # ... and the same inside sequences through one sink
+  for j in range(30 if tier == 'quick' else 300):
+    r = C.case_rng(seed, PID + 'ordseq', j)
+    ops = [_op_of(gen_rpc(r, 1, iface='ord', size='small', argmode=r.choice(['pos', 'mixed', 'kw'])), r, 'ord') for _ in range(r.choice([2, 3]))]
+    out.append({'kind': 'seq', 'pattern': 'param-order', 'sock': r.choice(['varz', 'scales']), 'ops': ops})
+  _use()
   # two inherited services with same-named methods, used one after the other
   k = 0
   for m in ['get', 'sum', 'name', 'ping']:
@@ -560,6 +598,9 @@ def search_cases(tier, seed, diverging):
     out.append(gen_rpc(r, 2, behaviour=r.choice(['ret', 'retnone', 'declared', 'app'])))
   for i in range(1000):
     out.append(gen_seq(C.case_rng(seed + 104729, PID + 'seq', i)))
+  for i in range(800):
+    r = C.case_rng(seed + 104729, PID + 'ord', i)
+    out.append(gen_rpc(r, 1, iface='ord', argmode=r.choice(['pos', 'mixed'])))
   for i in range(500):
     out.append(gen_overlap(C.case_rng(seed + 104729, PID + 'overlap', i)))
     out.append(gen_two_ifaces(C.case_rng(seed + 104729, PID + 'two', i)))
@@ -753,7 +794,7 @@ def serve(case, request_frame, record):
 
 
 def _args_json(method, args):
-  spec = [e for e in _args_spec(method) if e is not None]
+  spec = _params(method)               # the generated Processor calls handler.m(args.p1, args.p2, ..) in declaration order
   out = {}
   for e, a in zip(spec, args):
     try:
@@ -983,7 +1024,7 @@ class Session(object):
     else:
       FakeSocket.current = script
     nfaults = len(self.faults[k])
-    aspec = [e for e in _args_spec(method) if e is not None]
+    aspec = _params(method)
     args = tuple(from_json(a, e[1], e[3]) for a, e in zip(case['args'], aspec))
     by = {e[2]: e for e in aspec}
     kwargs = {kk: from_json(v, by[kk][1], by[kk][3]) for kk, v in case['kwargs'].items()}
@@ -1128,8 +1169,9 @@ def _encodable(j, ttype, targs):
 
 
 def _supplied(case):
-  """argument name -> JSON value as supplied (None / absent = not sent)."""
-  aspec = [e for e in _args_spec(case['method']) if e is not None]
+  """argument name -> JSON value as supplied (None / absent = not sent); positional arguments bind to the
+  parameters in declaration order, as in any Python call of the service method."""
+  aspec = _params(case['method'])
   d = {}
   for a, e in zip(case['args'], aspec):
     if a is not None:
